@@ -433,7 +433,7 @@ impl Check for C19 {
     }
     fn plan(&self, tier: Tier) -> Plan {
         let fixed = fixed_cases().len() as u64;
-        let mut p = Plan::new(fixed + tier.pick(4_000, 400_000), tier.pick(35.0, 360.0));
+        let mut p = Plan::new(fixed + tier.pick(40_000, 2_000_000), tier.pick(35.0, 360.0));
         p.mandatory = fixed;
         p.cpu_budget_s = 30.0;
         p.mem_ceiling = 3 << 30;
@@ -441,6 +441,14 @@ impl Check for C19 {
     }
     fn run_case(&self, _tier: Tier, k: u64, rng: &mut Rng, out: &mut Out) {
         let fixed = fixed_cases();
+        if (k as usize) >= fixed.len() && rng.chance(1, 12) {
+            // accepted chunk sizes taking effect while messages on other chunk streams are in
+            // flight (the C16 history with in-band size changes): the codec must keep working
+            out.count("class_DeserSetWhileMessagesInFlight", 1);
+            out.shape(mix(0xC16, k % 64));
+            super::c16::run_scs_history(rng, out);
+            return;
+        }
         let case = if (k as usize) < fixed.len() {
             fixed[k as usize].clone()
         } else {
@@ -466,7 +474,7 @@ impl Check for C19 {
         run(&case, rng, out);
     }
     fn rule(&self) -> String {
-        "one call class x value per case, each in a supervised worker (CPU-time watchdog 30 s per case, allocator ceiling): chunk size {0,1,2,3,127,128,129,65536,2^24-1,2^24,2^31-2,2^31-1,2^31,2^31+1,2^32-2,2^32-1, boundary-biased random} into ChunkSerializer::set_max_chunk_size, ChunkDeserializer::set_max_chunk_size (also usize values beyond u32), ServerSessionConfig.chunk_size, ClientSessionConfig.chunk_size; window/bandwidth/buffer length {0,1,2,100,2^31-1,2^31,2^32-2,2^32-1, random}; payload lengths {0,16777214,16777215,16777216,16777217,20M,32M} into serialize and through both sessions; AMF0 string and property-name lengths {0,1,65534..65537,70000}; fms_version/flash_version/tc_url/app/stream-key strings of those lengths. Out-of-range must give Err (at the call or at first use); every accepted value is followed by a codec round trip or a connect+publish|play scenario of 4-6 items that must complete exactly. distinct = distinct (call class, value).".to_string()
+        "one call class x value per case, each in a supervised worker (CPU-time watchdog 30 s per case, allocator ceiling): chunk size {0,1,2,3,127,128,129,65536,2^24-1,2^24,2^31-2,2^31-1,2^31,2^31+1,2^32-2,2^32-1, boundary-biased random} into ChunkSerializer::set_max_chunk_size, ChunkDeserializer::set_max_chunk_size (also usize values beyond u32), ServerSessionConfig.chunk_size, ClientSessionConfig.chunk_size; window/bandwidth/buffer length {0,1,2,100,2^31-1,2^31,2^32-2,2^32-1, random}; payload lengths {0,16777214,16777215,16777216,16777217,20M,32M} into serialize and through both sessions; AMF0 string and property-name lengths {0,1,65534..65537,70000}; fms_version/flash_version/tc_url/app/stream-key strings of those lengths. One case in twelve applies accepted chunk sizes through in-band SetChunkSize messages placed between the chunks of messages in flight on other chunk streams (the C16 history). Out-of-range must give Err (at the call or at first use); every accepted value is followed by a codec round trip or a connect+publish|play scenario of 4-6 items that must complete exactly. distinct = distinct (call class, value).".to_string()
     }
     fn assumptions(&self) -> Vec<String> {
         vec![
@@ -476,7 +484,7 @@ impl Check for C19 {
     }
     fn required_counters(&self, _tier: Tier) -> Vec<String> {
         let mut v = vec!["in_range_value_honoured".to_string(), "out_of_range_value_refused".into()];
-        for c in ["SerSet", "DeserSet", "ServerChunk", "ClientChunk", "ServerWindow", "ClientWindow", "PeerBandwidth", "BufferLength", "SerPayload", "ClientPayload", "ServerPayload", "AmfString", "AmfName", "StringCfg"] {
+        for c in ["SerSet", "DeserSet", "ServerChunk", "ClientChunk", "ServerWindow", "ClientWindow", "PeerBandwidth", "BufferLength", "SerPayload", "ClientPayload", "ServerPayload", "AmfString", "AmfName", "StringCfg", "DeserSetWhileMessagesInFlight"] {
             v.push(format!("class_{}", c));
         }
         v
